@@ -45,6 +45,22 @@ class FeedServer:
             self.conn.close()
             self.conn = None
 
+    def go_away(self):
+        """stop listening altogether: connection attempts are refused until come_back()"""
+        self.drop()
+        self.sock.close()
+
+    def come_back(self):
+        """listen on the same port again; False if the port could not be taken back"""
+        self.sock = socket.socket(socket.AF_INET, socket.SOCK_STREAM)
+        self.sock.setsockopt(socket.SOL_SOCKET, socket.SO_REUSEADDR, 1)
+        try:
+            self.sock.bind(("127.0.0.1", self.port))
+        except OSError:
+            return False
+        self.sock.listen(4)
+        return True
+
     def stall(self):
         """make the port unresponsive without refusing: the accept queue is filled with dummy
         connections, so further SYNs are silently dropped and a connect attempt times out"""
@@ -156,6 +172,14 @@ class FakeGpsd(threading.Thread):
 
     def report(self, lat, lon):
         self._send({"class": "TPV", "device": "/dev/ttyACM0", "mode": 3, "time": "2026-10-03T10:00:01.000Z", "lat": lat, "lon": lon, "altMSL": 3.0, "speed": 20.0, "track": 60.0})
+
+    def chatter(self):
+        """the other reports a gpsd with a good receiver interleaves with its fixes: pseudorange
+        noise statistics (GST: `lat`/`lon` are standard deviations in metres, not coordinates),
+        a sky view, and a TPV report without a fix"""
+        self._send({"class": "GST", "device": "/dev/ttyACM0", "time": "2026-10-03T10:00:02.000Z", "rms": 2.2, "major": 4.7, "minor": 3.0, "orient": 68.0, "lat": 3.1, "lon": 4.6, "alt": 7.9})
+        self._send({"class": "SKY", "device": "/dev/ttyACM0", "time": "2026-10-03T10:00:02.000Z", "hdop": 1.1, "pdop": 1.9, "satellites": [{"PRN": 5, "el": 41.0, "az": 110.0, "ss": 33.0, "used": True}]})
+        self._send({"class": "TPV", "device": "/dev/ttyACM0", "mode": 1, "time": "2026-10-03T10:00:02.500Z"})
 
     def close(self):
         for x in (self.conn, self.srv):
